@@ -16,6 +16,7 @@
 #ifndef VP_VMAX
 #define VP_VMAX 2
 #endif
+struct IntOpts : Gudhi::Simplex_tree_options_default { typedef int Filtration_value; };
 typedef Gudhi::Simplex_tree<> ST; typedef Gudhi::Simplex_tree<Gudhi::Simplex_tree_options_full_featured> ST2;
 enum { N = VP_N, NS = 1 << VP_N };
 static std::vector<int> word(int mask) { std::vector<int> w; for (int i = 0; i < N; i++) if (mask >> i & 1) w.push_back(i); return w; }
@@ -55,11 +56,17 @@ extern "C" void harness() {
     if (top > 0) { st.remove_maximal_simplex(st.find(word(top))); st.clear_filtration(); /* documented: the caller drops the cache after modifying the complex by hand */ int r4 = 0; bool gone = true; for (auto sh : st.filtration_simplex_range()) { if (mask_of(st, sh) == top) gone = false; r4++; } vp_assert(gone && r4 == cnt - 1, "after clear_filtration the range follows a removal made since it was first computed"); vp_reach("range-after-removal"); }
     std::vector<int> nv; nv.push_back(N + 3); st.insert_simplex(nv, 0.0); st.clear_filtration(); int r5 = 0; bool seen_new = false; for (auto sh : st.filtration_simplex_range()) { if (st.dimension(sh) == 0 && *st.simplex_vertex_range(sh).begin() == N + 3) seen_new = true; r5++; } vp_assert(seen_new && r5 == (top > 0 ? cnt : cnt + 1), "after clear_filtration the range follows an insertion made since it was first computed"); }
 #elif VP_MODE == 1
-  for (int m = 1; m < NS; m++) if (shape[m]) f[m] = (double)vp_int("f", 0, VP_VMAX);   // arbitrary, possibly non-monotone
-  ST st; for (int m = 1; m < NS; m++) if (shape[m]) st.insert_simplex(word(m), f[m]);
+#ifdef VP_INTFILT   /* storage option: an integer filtration value type (no NaN, separate branch of intersect_lifetimes) */
+  typedef Gudhi::Simplex_tree<IntOpts> ST1; typedef int FV1;
+#else
+  typedef ST ST1; typedef double FV1;
+#endif
+  FV1 g[NS];
+  for (int m = 1; m < NS; m++) if (shape[m]) g[m] = (FV1)vp_int("f", 0, VP_VMAX);   // arbitrary, possibly non-monotone
+  ST1 st; for (int m = 1; m < NS; m++) if (shape[m]) st.insert_simplex(word(m), g[m]);
   bool changed = st.make_filtration_non_decreasing(); bool any = false;
-  for (int m = 1; m < NS; m++) if (shape[m]) { double mx = f[m]; for (int s = 1; s < NS; s++) if ((s & m) == s && f[s] > mx) mx = f[s];
-    vp_assert(st.filtration(st.find(word(m))) == mx, "value = maximum of its own and its faces' original values"); if (mx != f[m]) any = true; }
+  for (int m = 1; m < NS; m++) if (shape[m]) { FV1 mx = g[m]; for (int s = 1; s < NS; s++) if ((s & m) == s && g[s] > mx) mx = g[s];
+    vp_assert(st.filtration(st.find(word(m))) == mx, "value = maximum of its own and its faces' original values"); if (mx != g[m]) any = true; }
   vp_assert(changed == any, "returns true exactly when a value changed");
   vp_assert(!st.make_filtration_non_decreasing(), "idempotent: a second call changes nothing");
 #elif VP_MODE == 2
